@@ -105,6 +105,11 @@ def check_case(case):
                 'error': repr(second.exc)[:160], 'input': data[:consumed].hex()[:160], 'canonical': canonical.hex()[:160]})]
         findings = []
         difference = lib.same(second.value, obj)
+        if difference and 'dump() raised' in difference:
+            # a damaged X.509 certificate that asn1crypto accepted lazily and cannot re-encode: there is no value to
+            # compare (the lazy acceptance itself is recorded under C14); not a case of this property
+            check_case.noncanonical = False
+            return []
         if difference:
             key = family_key('meaning-changed', name, difference, case) or \
                 'meaning-changed:%s/%s' % (lib.field_of_diff(difference), name)
